@@ -11,7 +11,7 @@ theorem gen_shouldFingerprint (f : Bool) (t : Nat) : Gen.shouldFingerprint f t =
   first
   | exact rfl
   | (unfold Gen.shouldFingerprint shouldFingerprint hasAll F_SYN F_FIN F_RST
-     gen_finish)
+     try gen_finish)
 
 /-- `valid_for_tcp_fingerprint` -/
 theorem gen_validTcp (f : Bool) (t : Nat) : Gen.validTcp f t = validTcp f t := by
@@ -19,7 +19,7 @@ theorem gen_validTcp (f : Bool) (t : Nat) : Gen.validTcp f t = validTcp f t := b
   | exact rfl
   | (unfold Gen.validTcp validTcp F_SYN F_ACK
      simp only [gen_shouldFingerprint]
-     gen_finish)
+     try gen_finish)
 
 /-- `valid_for_uptime_fingerprint` -/
 theorem gen_validUptime (f : Bool) (t : Nat) : Gen.validUptime f t = validUptime f t := by
@@ -27,7 +27,7 @@ theorem gen_validUptime (f : Bool) (t : Nat) : Gen.validUptime f t = validUptime
   | exact rfl
   | (unfold Gen.validUptime validUptime F_SYN F_ACK
      simp only [gen_shouldFingerprint]
-     gen_finish)
+     try gen_finish)
 
 /-- `valid_for_mtu_fingerprint` -/
 theorem gen_validMtu (f : Bool) (t m : Nat) : Gen.validMtu f t m = validMtu f t m := by
@@ -35,6 +35,6 @@ theorem gen_validMtu (f : Bool) (t m : Nat) : Gen.validMtu f t m = validMtu f t 
   | exact rfl
   | (unfold Gen.validMtu validMtu F_SYN F_ACK
      simp only [gen_shouldFingerprint]
-     gen_finish)
+     try gen_finish)
 
 end P0f
